@@ -34,7 +34,11 @@ numpy leaves log10 / ln / power are uninterpreted functions of `Env`)
       PROVEN PART: whatever value the optimiser returns, it was handed the x-space error of
       this data (sorted, positions by rank, weights as specified) and the returned
       (alpha, beta) are the weighted-regression minimisers for that delta.
-      Local minimality is observed per run on the real code.
+      Local minimality is observed per run on the real code (harness/c13.py: bounded scalar minimiser of the
+      harness' own x-space error around the returned delta, relative gap ≤ 2e-5; samples whose error has no
+      interior minimiser in delta are a known finding keyed on the input).
+  container type of data / weights (list, tuple, int64),   no theorem (the model starts from the list of observations):
+    letter case of `method`, object re-use                 observed per run
 -/
 import VirVerif.Model.EwLsq
 import Mathlib.Algebra.Order.Field.Basic
